@@ -205,6 +205,11 @@ func c01Scenarios() []*GbnScenario {
 			sc.RandFault = nil
 			sc.RunFor = 200 * time.Second
 		}
+		if i%5 == 2 {
+			// keepalive pings more frequent than retransmissions
+			sc.PingNs, sc.PongNs = int64(300*time.Millisecond), int64(20*time.Second)
+			sc.Static = 3 * time.Second
+		}
 		if i%3 == 1 {
 			// the reading application polls with a deadline that expires inside messages
 			sc.RecvTimeout = []time.Duration{30 * time.Millisecond, 200 * time.Millisecond, 900 * time.Millisecond}[crng.Intn(3)]
